@@ -14,7 +14,10 @@ IDENTIFIER = re.compile(r'[^\W\d]\w*$', re.U)
 
 
 def list_packages(project, root, filename):
-    root = project.norm_package(root, filename)
+    try:
+        root = project.norm_package(root, filename)
+    except ImportError:
+        return []
     return sorted(r for r in project.list_packages(root) if IDENTIFIER.match(r))
 
 
@@ -46,8 +49,11 @@ def assist(project, source, position, filename=None, debug=False):
             return prefix, list_packages(project, head, filename)
         else:
             plist = list_packages(project, head, filename)
-            module = project.get_nmodule(head, filename)
-            return prefix, sorted(set(plist) | set(module.attr_list(ctx)))
+            try:
+                attrs = project.get_nmodule(head, filename).attr_list(ctx)
+            except ImportError:
+                attrs = ()
+            return prefix, sorted(set(plist) | set(attrs))
 
     attr = get_marked_atribute(source.tree)
     if attr:
@@ -85,21 +91,25 @@ def location(project, source, position, filename=None, debug=False):
 
     if marked_import:
         head, tail = marked_import
-        if tail is None:
-            name = project.get_nmodule(head, filename)
-        else:
-            if not tail:
-                full = head
-                head, tail = split_pkg(head)
+        try:
+            if tail is None:
+                name = project.get_nmodule(head, filename)
             else:
-                full = join_pkg(head, tail)
+                if not tail:
+                    full = head
+                    head, tail = split_pkg(head)
+                else:
+                    full = join_pkg(head, tail)
 
-            module = project.get_nmodule(head, filename)
-            name = module.get_attr(ctx, tail)
-            if not name:
-                name = project.get_nmodule(full, filename)
+                module = project.get_nmodule(head, filename)
+                name = module.get_attr(ctx, tail)
+                if not name:
+                    name = project.get_nmodule(full, filename)
+        except ImportError:
+            name = None
 
-        result = ctx.declarations(name, [])
+        if name:
+            result = ctx.declarations(name, [])
     else:
         node = get_marked_name(source.tree) or get_marked_atribute(source.tree)
         if node:
